@@ -18,6 +18,8 @@ func init() {
 var c12Ops = []string{"+", "-", "*", "/", "%", "^", "==", "!=", ">", ">=", "<", "<="}
 var c12SetOps = []string{"and", "or", "unless"}
 var c12Scalars = []float64{0, -2, 0.5, 3, 1, 2, 10, -0.5, 100, 12, 644,
+	// fractions without an exact binary form: x % 0.1 is the remainder of the division by the float64 nearest to 0.1
+	0.1, 0.3, 0.7, -0.3, 1.1,
 	// next to values the series take, but not equal to them: a comparison is exact
 	3.0000000002, 2.9999999999, 1.0000000001, 10.000000001, 4.9999999999, 7.0000000003, -2.0000000001}
 
@@ -68,7 +70,7 @@ func genBinRecs(r *vk.RNG, steps int, mode string) []Rec {
 			if side != "l" {
 				used[kr] = true
 			}
-			v := vk.Pick(r, []string{"0", "1", "2", "3", "5", "7", "-3", "0.5", "1.5", "10", "-0.25", "4"})
+			v := vk.Pick(r, []string{"0", "1", "2", "3", "5", "7", "-3", "0.5", "1.5", "10", "-0.25", "4", "0.3", "0.7", "2.1", "6", "9"})
 			ts := metricT0 + int64(s)*4e9 + 5e8 + int64(r.Intn(3000))*1e6
 			recs = append(recs, Rec{TS: ts, Line: "v=" + v, Labels: l})
 		}
@@ -267,7 +269,34 @@ func runC12(r *vk.Run) {
 		}
 		op := vk.Pick(rng, c12Ops)
 		b := &BinOp{Op: op, Bool: isCmp(op) && rng.Bool()}
-		switch rng.Intn(4) {
+		which := rng.Intn(4)
+		if c.Idx%12 == 5 {
+			// the remainder of a division by a fraction (a sampling interval of 0.1 s, a 0.3 weight)
+			b.Op, b.Bool, which = "%", false, 4
+			c.Count("remainders_by_fractions", 1)
+		}
+		if c.Idx%12 == 7 {
+			// a product with a zero factor is not zero when the other factor is NaN or infinite
+			b.Op, b.Bool, which = "*", false, 5
+			c.Count("products_of_zero_and_nan_or_inf", 1)
+		}
+		switch which {
+		case 5:
+			nanOrInf := vk.Pick(rng, []MExpr{
+				&Paren{X: &BinOp{Op: "/", L: left, R: &Lit{V: 0}}},
+				&Paren{X: &BinOp{Op: "%", L: left, R: &Lit{V: 0}}},
+				&Paren{X: &BinOp{Op: "^", L: &Lit{V: 10}, R: &Paren{X: &BinOp{Op: "*", L: left, R: &Lit{V: 400}}}}},
+			})
+			zero := vk.Pick(rng, []MExpr{&Lit{V: 0}, &Paren{X: &BinOp{Op: "*", L: left, R: &Lit{V: 0}}}, &Paren{X: &BinOp{Op: "-", L: left, R: left}}})
+			b.L, b.R = nanOrInf, zero
+			if rng.Bool() {
+				b.L, b.R = zero, nanOrInf
+			}
+		case 4:
+			b.L, b.R = left, &Lit{V: vk.Pick(rng, []float64{0.1, 0.3, 0.7, -0.3, 1.1, 0.2, 0.6})}
+			if rng.Chance(1, 3) {
+				b.L, b.R = &Lit{V: vk.Pick(rng, []float64{3, 7, 2.1, 0.9, 1, 10})}, &Paren{X: &BinOp{Op: "/", L: left, R: &Lit{V: 10}}}
+			}
 		case 0:
 			b.L, b.R = inner(), &Lit{V: vk.Pick(rng, c12Scalars)}
 		case 1:
